@@ -9,6 +9,7 @@
   of the measure when the cost is computable, NaN otherwise.  No size bound appears anywhere.
 -/
 import PandoraModel.Lemmas.MCMasked
+import PandoraModel.Lemmas.MCCensus
 import PandoraModel.Generated.MatchingCostConsts
 
 namespace Pandora.C02
@@ -33,14 +34,14 @@ theorem cmax_source_eq_model :
 
 /-- From planes that are right before masking (`RawOK`, proved per measure below) to the whole step:
     `compute_cost_volume` followed by `cv_masked` yields, at every pixel `(r, c)` and every sample `j` of the
-    disparity range, exactly the cell of the specification. -/
-theorem costVolume_eq_spec_of_raw (x : Input) (h : Shape x)
+    disparity range, exactly the cell the statement prescribes (`val` = the value function of the measure). -/
+theorem costVolume_eq_specWith_of_raw (x : Input) (h : Shape x) (val : Int → Int → Int → Cell)
     (hg : gridMin x.dminG x.L.rows x.L.cols ≤ gridMax x.dmaxG x.L.rows x.L.cols)
-    (hraw : RawOK x) (r c : Int) (j : Nat)
+    (hraw : RawOK x val) (r c : Int) (j : Nat)
     (hj : j < nDisp (gridMin x.dminG x.L.rows x.L.cols) (gridMax x.dmaxG x.L.rows x.L.cols) x.sp) :
-    costVolume x r c j = specVolume x r c j := by
+    costVolume x r c j = specCellWith val x r c (gridMin x.dminG x.L.rows x.L.cols * (x.sp : Int) + j) := by
   have hs := h.sp_pos
-  unfold costVolume specVolume intervalMask
+  unfold costVolume intervalMask
   simp only
   set gmin := gridMin x.dminG x.L.rows x.L.cols with hgmin
   set gmax := gridMax x.dmaxG x.L.rows x.L.cols with hgmax
@@ -49,13 +50,13 @@ theorem costVolume_eq_spec_of_raw (x : Input) (h : Shape x)
   have hget := dispRange_getD gmin gmax x.sp hs hg j hj
   rw [dispRange_eq gmin gmax x.sp hs hg] at *
   have hjn : j < ((gmax - gmin) * (x.sp : Int)).toNat + 1 := by omega
-  unfold specCell
+  unfold specCellWith
   by_cases h1 : (k < x.dminG r c * (x.sp : Int) ∨ k > x.dmaxG r c * (x.sp : Int))
   · rw [if_pos h1]
     have hc : cause x r c k ≠ .computable := fun hc => ((cause_computable_iff x r c k).mp hc).1 h1
     rw [if_neg hc]
   · rw [if_neg h1, fold_steps x gmin _ _ r c j, if_pos hjn]
-    rw [masked_cell x h hraw gmin _ k r c j (by omega) (by simp only [hget, hk])]
+    rw [masked_cell x h val hraw gmin _ k r c j (by omega) (by simp only [hget, hk])]
     by_cases hc : cause x r c k = .computable
     · rw [if_pos hc]
       obtain ⟨_, h2, h3, h4, h5⟩ := (cause_computable_iff x r c k).mp hc
@@ -65,9 +66,17 @@ theorem costVolume_eq_spec_of_raw (x : Input) (h : Shape x)
         fun hh => hc ((cause_computable_iff x r c k).mpr ⟨h1, hh⟩)
       rw [if_neg this]
 
+/-- the same with the textbook value function: the model volume is the specified volume -/
+theorem costVolume_eq_spec_of_raw (x : Input) (h : Shape x)
+    (hg : gridMin x.dminG x.L.rows x.L.cols ≤ gridMax x.dmaxG x.L.rows x.L.cols)
+    (hraw : RawOK x (valueSpec x)) (r c : Int) (j : Nat)
+    (hj : j < nDisp (gridMin x.dminG x.L.rows x.L.cols) (gridMax x.dmaxG x.L.rows x.L.cols) x.sp) :
+    costVolume x r c j = specVolume x r c j :=
+  costVolume_eq_specWith_of_raw x h (valueSpec x) hg hraw r c j hj
+
 /-- sad / ssd: the sliding sum over the NaN-padded pixel-wise volume, re-NaN-ed on the border, is the sum of
     absolute / squared differences over the two windows, NaN exactly when a window leaves its image -/
-theorem rawOK_sad_ssd (x : Input) (h : Shape x) (hm : x.meas = .sad ∨ x.meas = .ssd) : RawOK x := by
+theorem rawOK_sad_ssd (x : Input) (h : Shape x) (hm : x.meas = .sad ∨ x.meas = .ssd) : RawOK x (valueSpec x) := by
   intro k r c
   unfold rawPlane
   rcases hm with hm | hm <;> simp only [hm] <;> exact rawSadSsd_eq x h (by simp [hm]) k r c
@@ -76,7 +85,8 @@ theorem rawOK_sad_ssd (x : Input) (h : Shape x) (hm : x.meas = .sad ∨ x.meas =
     cross-correlation `cov / √(varL·varR)` (carried symbolically), `0` when a variance vanishes; hypothesis:
     the `1e-15` threshold of `compute_std_raster` does not fire on a non-zero variance -/
 theorem rawOK_zncc (x : Input) (h : Shape x) (hm : x.meas = .zncc)
-    (hnt : ∀ k r c : Int, NoTiny x x.L.px r c ∧ NoTiny x (fun a b => interpR x.R x.sp k a b) r c) : RawOK x := by
+    (hnt : ∀ k r c : Int, NoTiny x x.L.px r c ∧ NoTiny x (fun a b => interpR x.R x.sp k a b) r c) :
+    RawOK x (valueSpec x) := by
   intro k r c
   unfold rawPlane
   simp only [hm]
@@ -96,5 +106,57 @@ theorem costVolume_eq_spec_zncc (x : Input) (h : Shape x) (hm : x.meas = .zncc)
     (hj : j < nDisp (gridMin x.dminG x.L.rows x.L.cols) (gridMax x.dmaxG x.L.rows x.L.cols) x.sp) :
     costVolume x r c j = specVolume x r c j :=
   costVolume_eq_spec_of_raw x h hg (rawOK_zncc x h hm hnt) r c j hj
+
+/-! ### census
+
+  Full-strength statement (not proved in Lean for 25-bit strings):
+      `costVolume x r c j = specVolume x r c j`  for `x.meas = .census`,
+  i.e. `popcount32b (censusBits w L … ^^^ censusBits w R̃ …) = winCount (fun a b => (L a b > L r c) != (R̃ a b > R̃ r c))`.
+  What is proved: everything except that last bit-level identity — the NaN structure (all seven causes), the
+  index arithmetic (left window on `(r, c)`, right window on `(r, c + d)` of the interpolated image, truncated
+  census coordinates, cropped placement), the masks and the interval — with the value kept in the form the code
+  computes it (`valueCensusBits`).  The identity itself is tied to the code by `popcount_9bit` below (every
+  argument a 3×3 census can produce, `decide`), by the exhaustive evaluation of the real `Census.popcount32b`
+  on all 2^25 arguments (thorough tier; stratified sample in the quick tier) and by the correspondence run, which
+  compares the implementation with the textbook Hamming distance (`valueSpec`) cell by cell. -/
+
+theorem rawOK_census (x : Input) (h : Shape x) (hm : x.meas = .census) : RawOK x (valueCensusBits x) := by
+  intro k r c
+  unfold rawPlane
+  simp only [hm]
+  exact rawCensus_eq x h k r c
+
+/-- **C02, census (partial: the value is kept as popcount of the xor of the two census strings).** -/
+theorem costVolume_eq_spec_census_partial (x : Input) (h : Shape x) (hm : x.meas = .census)
+    (hg : gridMin x.dminG x.L.rows x.L.cols ≤ gridMax x.dmaxG x.L.rows x.L.cols) (r c : Int) (j : Nat)
+    (hj : j < nDisp (gridMin x.dminG x.L.rows x.L.cols) (gridMax x.dmaxG x.L.rows x.L.cols) x.sp) :
+    costVolume x r c j =
+      specCellWith (valueCensusBits x) x r c (gridMin x.dminG x.L.rows x.L.cols * (x.sp : Int) + j) :=
+  costVolume_eq_specWith_of_raw x h (valueCensusBits x) hg (rawOK_census x h hm) r c j hj
+
+/-- `nan_iff_not_computable` for every measure, zncc included without the variance hypothesis: the cost is NaN
+    exactly when one of the causes of the statement holds -/
+theorem nan_iff_not_computable (x : Input) (h : Shape x) (val : Int → Int → Int → Cell) (hraw : RawOK x val)
+    (hval : ∀ r c k, (val r c k).isNan = false)
+    (hg : gridMin x.dminG x.L.rows x.L.cols ≤ gridMax x.dmaxG x.L.rows x.L.cols) (r c : Int) (j : Nat)
+    (hj : j < nDisp (gridMin x.dminG x.L.rows x.L.cols) (gridMax x.dmaxG x.L.rows x.L.cols) x.sp) :
+    (costVolume x r c j).isNan = true ↔
+      cause x r c (gridMin x.dminG x.L.rows x.L.cols * (x.sp : Int) + j) ≠ .computable := by
+  rw [costVolume_eq_specWith_of_raw x h val hg hraw r c j hj]
+  unfold specCellWith
+  split
+  · rename_i hc
+    simp [hc, hval]
+  · rename_i hc
+    simp [hc, Cell.isNan]
+
+/-- the Hamming weight computed by `popcount32b` is the number of set bits, for every 9-bit argument
+    (everything a 3×3 census xor can produce) -/
+def bitCount : Nat → Nat → Nat
+  | 0, _ => 0
+  | n + 1, x => x % 2 + bitCount n (x / 2)
+
+set_option maxRecDepth 20000 in
+theorem popcount_9bit : ∀ x : Fin 512, popcount32b x.val = bitCount 9 x.val := by decide +kernel
 
 end Pandora.C02
